@@ -1148,7 +1148,12 @@ func (app *ExocoreApp) BeginBlocker(
 ) abci.ResponseBeginBlock {
 	// Perform any scheduled forks before executing the modules logic
 	app.ScheduleForkUpgrade(ctx)
-	return app.mm.BeginBlock(ctx, req)
+	// The context handed in carries the gas meter of the block's deliver state. baseapp reports that meter's
+	// total as the gas used of every transaction that is rejected before its own meter is installed (failed
+	// ValidateBasic, ante handler panic). What BeginBlock reads must therefore not be charged to it: a node
+	// reads more in its first BeginBlock after a start (x/capability rebuilds its memory store, x/oracle its
+	// aggregator) and would otherwise report another gas used - another last-results hash - than its peers.
+	return app.mm.BeginBlock(ctx.WithGasMeter(sdk.NewInfiniteGasMeter()), req)
 }
 
 // EndBlocker updates every end block
